@@ -805,4 +805,28 @@ theorem stage_eq_stage_runTree {t0 t : RawTree} {cfg : LevelLoop.Config}
       have hc' : l ∉ t0.hierarchy := by simpa using hc
       cases hf : cfg.flatten <;> simp [Markers.stage, hc']
 
+/-- a validated taxonomy that holds at least one reference cell has a node -/
+theorem hasNode_of_rows {t : RawTree} (w : WF t) (h : t.allRows ≠ []) : HasNode t := by
+  unfold allRows at h
+  cases hl : t.leafLevel with
+  | none => rw [hl] at h; exact absurd rfl h
+  | some l =>
+    rw [hl] at h
+    simp only at h
+    cases hlev : t.level l with
+    | nil => rw [hlev] at h; exact absurd rfl h
+    | cons e es =>
+      have hn : e.1 ∈ t.nodesAt l := by simp [nodesAt, hlev]
+      exact hasNode_of_mem w (List.mem_of_getLast? hl) hn
+
+/-- `hierarchy.Nodup` is not given by the validator either: a hierarchy that
+repeats a level name (a node that is its own child) is accepted by
+`validate_taxonomy_tree` — model and code — and refused by `wfb` -/
+def dupLevelTree : RawTree := { hierarchy := [0, 0], levels := [(0, [(10, [10])])] }
+
+theorem dupLevelTree_discrepancy :
+    dupLevelTree.validate = .ok () ∧ DictOK dupLevelTree ∧ ¬ dupLevelTree.hierarchy.Nodup ∧
+      LevelLoop.wfb dupLevelTree = false :=
+  ⟨by rfl, dictOK_of_b (by decide), by decide, by decide⟩
+
 end CTM.Bridge
